@@ -1,14 +1,24 @@
-use crate::core::Property;
+use crate::core::{Property, Tier};
 
+pub mod c02;
+pub mod c03;
 pub mod c06;
+pub mod c09;
+pub mod c10;
+pub mod c19;
 pub mod c07;
 pub mod c20;
 
-pub fn property(id: &str) -> Option<Property> {
+pub fn property(id: &str, tier: Tier) -> Option<Property> {
     Some(match id {
-        "C06" => c06::property(),
-        "C07" => c07::property(),
-        "C20" => c20::property(),
+        "C02" => c02::property(tier),
+        "C03" => c03::property(tier),
+        "C09" => c09::property(tier),
+        "C10" => c10::property(tier),
+        "C19" => c19::property(tier),
+        "C06" => c06::property(tier),
+        "C07" => c07::property(tier),
+        "C20" => c20::property(tier),
         _ => return None,
     })
 }
